@@ -901,6 +901,9 @@ fn do_op(sys: &mut Sys, rng: &mut Rng, extremes: bool, script: Option<(u64, u64)
             let route = rng.below(3);
             let p1 = if route == 0 { sys.cp_phase1_args(&pt, n, id) } else { None };
             let sysr: &Sys = sys;
+            // one message in five carries an HTLC entry whose side byte is neither LOCAL nor REMOTE: the handler
+            // leaves such an entry out, the request is the one without it
+            let junk_side = route == 1 && rng.chance(1, 5);
             let r = if route == 1 {
                 let m = msgs::SignRemoteCommitmentTx2 {
                     remote_per_commitment_point: PubKey(pt.serialize()),
@@ -917,6 +920,10 @@ fn do_op(sys: &mut Sys, rng: &mut Rng, extremes: bool, script: Option<(u64, u64)
                                 payment_hash: model::Sha256(h.payment_hash.0),
                                 ctlv_expiry: h.cltv_expiry,
                             })
+                            .chain(
+                                (if junk_side { vec![model::Htlc { side: 2, amount: 7_000_000, payment_hash: model::Sha256([0x5a; 32]), ctlv_expiry: 800 }] } else { vec![] })
+                                    .into_iter(),
+                            )
                             .collect(),
                     ),
                 };
